@@ -78,11 +78,30 @@ type c13Def struct {
 	generic bool // {X:Type}
 }
 
+type c13Cand struct {
+	d    *c13Def
+	gt   reflect.Type
+	kind string
+}
+
+type c13CandKey struct {
+	name string
+	gt   reflect.Type
+}
+
+type c13Cands struct {
+	all      []c13Cand
+	smallest *c13Cand
+	minH     int
+}
+
 type c13Schema struct {
+	cands   map[c13CandKey]*c13Cands // constructors of a schema type that a Go type can hold
 	byID    map[uint32]*c13Def
 	ctors   map[string][]*c13Def // type name -> constructors in file order
 	funcs   []*c13Def
-	height  map[string]int // minimal nesting of a value of the type
+	bigT    map[string]bool // the type has a value of any size (a string, bytes or vector somewhere in it)
+	height  map[string]int  // minimal nesting of a value of the type
 	dheight map[uint32]int
 }
 
@@ -138,7 +157,7 @@ func c13ReadSchema(path string) (*c13Schema, error) {
 		return nil, err
 	}
 	defer f.Close()
-	s := &c13Schema{byID: map[uint32]*c13Def{}, ctors: map[string][]*c13Def{}, height: map[string]int{}, dheight: map[uint32]int{}}
+	s := &c13Schema{bigT: map[string]bool{}, cands: map[c13CandKey]*c13Cands{}, byID: map[uint32]*c13Def{}, ctors: map[string][]*c13Def{}, height: map[string]int{}, dheight: map[uint32]int{}}
 	sc := bufio.NewScanner(f)
 	sc.Buffer(make([]byte, 1<<16), 1<<22)
 	fn := false
@@ -219,7 +238,25 @@ func c13ReadSchema(path string) (*c13Schema, error) {
 			}
 		}
 	}
+	for changed := true; changed; {
+		changed = false
+		for n, cs := range s.ctors {
+			for _, d := range cs {
+				for _, p := range d.pars {
+					if !s.bigT[n] && s.dheight[d.id] < c13Inf && s.bigable(&p.ty) {
+						s.bigT[n] = true
+						changed = true
+					}
+				}
+			}
+		}
+	}
 	return s, nil
+}
+
+// bigable: a value of the type can be made as large as one likes
+func (s *c13Schema) bigable(t *c13Ty) bool {
+	return t.kind == "string" || t.kind == "bytes" || t.kind == "vector" || t.kind == "boxed" && s.bigT[t.name]
 }
 
 func (s *c13Schema) tyHeight(t *c13Ty) int {
@@ -255,15 +292,30 @@ func c13Str(b []byte) []byte {
 
 // c13Fields: the exported fields of a registered struct that take part in the layout, in order.
 func c13Fields(st reflect.Value) []reflect.Value {
-	var out []reflect.Value
-	for i := 0; i < st.NumField(); i++ {
-		if tag, ok := st.Type().Field(i).Tag.Lookup("tl"); ok && strings.HasPrefix(tag, "-") {
-			continue
+	c13FieldMu.Lock()
+	ix, ok := c13FieldIx[st.Type()]
+	if !ok {
+		ix = []int{}
+		for i := 0; i < st.NumField(); i++ {
+			if tag, ok := st.Type().Field(i).Tag.Lookup("tl"); ok && strings.HasPrefix(tag, "-") {
+				continue
+			}
+			ix = append(ix, i)
 		}
-		out = append(out, st.Field(i))
+		c13FieldIx[st.Type()] = ix
+	}
+	c13FieldMu.Unlock()
+	out := make([]reflect.Value, len(ix))
+	for j, i := range ix {
+		out[j] = st.Field(i)
 	}
 	return out
 }
+
+var (
+	c13FieldMu sync.Mutex
+	c13FieldIx = map[reflect.Type][]int{}
+)
 
 func (s *c13Schema) ser(t *c13Ty, v reflect.Value, w *bytes.Buffer) error {
 	switch t.kind {
@@ -409,17 +461,15 @@ type c13Mk struct {
 	s       *c13Schema
 	r       *Rand
 	n       int64
-	scal    bool          // scalars take distinguishable non-zero values
-	pop     bool          // vectors get elements, conditional parameters are present for some bits, constructors vary
-	vecN    int           // element count of a vector at depth 0 (-1: by mode)
-	big     bool          // one string / bytes / vector of the value is made large
+	scal    bool // scalars take distinguishable non-zero values
+	pop     bool // vectors get elements, conditional parameters are present for some bits, constructors vary
+	vecN    int  // element count of a vector at depth 0 (-1: by mode)
+	big     bool // one string / bytes / vector of the value is made large
 	bigDone bool
 	inner   *c13Method // what a generic parameter (query:!X) wraps
 }
 
 func (m *c13Mk) next() int64 { m.n++; return m.n }
-
-func c13Bigable(t *c13Ty) bool { return t.kind == "string" || t.kind == "bytes" || t.kind == "vector" }
 
 // goTypeOf: the registered Go type of a constructor (struct pointer, or the enum type)
 func c13GoType(id uint32) (reflect.Type, string) {
@@ -551,32 +601,42 @@ func (m *c13Mk) val(t *c13Ty, gt reflect.Type, depth int, nz bool) (reflect.Valu
 		}
 		out.Set(obj)
 	case "boxed":
-		type cand struct {
-			d    *c13Def
-			gt   reflect.Type
-			kind string
-		}
-		var cands []cand
-		minH := c13Inf
-		for _, d := range m.s.ctors[t.name] {
-			ct, kind := c13GoType(d.id)
-			if ct == nil || !ct.AssignableTo(gt) || m.s.dheight[d.id] >= c13Inf {
-				continue
+		ck := c13CandKey{t.name, gt}
+		cc, ok := m.s.cands[ck]
+		if !ok {
+			cc = &c13Cands{minH: c13Inf}
+			for _, d := range m.s.ctors[t.name] {
+				ct, kind := c13GoType(d.id)
+				if ct == nil || !ct.AssignableTo(gt) || m.s.dheight[d.id] >= c13Inf {
+					continue
+				}
+				cc.all = append(cc.all, c13Cand{d, ct, kind})
+				if m.s.dheight[d.id] < cc.minH {
+					cc.minH = m.s.dheight[d.id]
+				}
 			}
-			cands = append(cands, cand{d, ct, kind})
-			if m.s.dheight[d.id] < minH {
-				minH = m.s.dheight[d.id]
+			// the smallest constructor: least nesting, then fewest parameters, then file order
+			for i := range cc.all {
+				hi := m.s.dheight[cc.all[i].d.id]
+				if cc.smallest == nil || hi < m.s.dheight[cc.smallest.d.id] ||
+					hi == m.s.dheight[cc.smallest.d.id] && len(cc.all[i].d.pars) < len(cc.smallest.d.pars) {
+					cc.smallest = &cc.all[i]
+				}
 			}
+			m.s.cands[ck] = cc
 		}
+		cands, minH := cc.all, cc.minH
 		if len(cands) == 0 {
 			return out, fmt.Errorf("no registered constructor of %s fits Go type %v", t.name, gt)
 		}
-		var pick *cand
-		if m.big && !m.bigDone { // a constructor that has something to make large
-			for i := range cands {
-				for _, p := range cands[i].d.pars {
-					if pick == nil && c13Bigable(&p.ty) {
-						pick = &cands[i]
+		var pick *c13Cand
+		if m.big && !m.bigDone { // a constructor that has something to make large: of its own, else further down
+			for _, direct := range []bool{true, false} {
+				for i := range cands {
+					for _, p := range cands[i].d.pars {
+						if pick == nil && m.s.bigable(&p.ty) && (!direct || p.ty.kind != "boxed") {
+							pick = &cands[i]
+						}
 					}
 				}
 			}
@@ -590,16 +650,8 @@ func (m *c13Mk) val(t *c13Ty, gt reflect.Type, depth int, nz bool) (reflect.Valu
 			}
 			pick = &cands[near[m.r.Intn(len(near))]]
 		}
-		if pick == nil { // the smallest constructor: least nesting, then fewest parameters, then file order
-			for i := range cands {
-				hi, hp := m.s.dheight[cands[i].d.id], 0
-				if pick != nil {
-					hp = m.s.dheight[pick.d.id]
-				}
-				if pick == nil || hi < hp || hi == hp && len(cands[i].d.pars) < len(pick.d.pars) {
-					pick = &cands[i]
-				}
-			}
+		if pick == nil {
+			pick = cc.smallest
 		}
 		if pick.kind == "enum" {
 			e := reflect.New(pick.gt).Elem()
@@ -651,7 +703,12 @@ func (m *c13Mk) fields(d *c13Def, types []reflect.Type, depth int) ([]reflect.Va
 		return nil, fmt.Errorf("%s has %d parameters, the Go side has %d", d.name, len(ps), len(types))
 	}
 	// presence is decided per flag bit: parameters sharing a bit are present together
-	present := map[string]bool{}
+	var present map[string]bool
+	for _, p := range ps {
+		if p.ty.bit >= 0 && present == nil {
+			present = map[string]bool{}
+		}
+	}
 	for _, p := range ps {
 		key := p.ty.fld + "." + strconv.Itoa(p.ty.bit)
 		if p.ty.bit < 0 {
@@ -660,7 +717,7 @@ func (m *c13Mk) fields(d *c13Def, types []reflect.Type, depth int) ([]reflect.Va
 		if _, seen := present[key]; !seen {
 			present[key] = m.pop && depth == 0 && m.r.Intn(2) == 0
 		}
-		if m.big && !m.bigDone && depth <= 1 && c13Bigable(&p.ty) {
+		if m.big && !m.bigDone && depth <= 4 && m.s.bigable(&p.ty) {
 			present[key] = true
 		}
 	}
@@ -691,9 +748,9 @@ type c13Method struct {
 }
 
 type c13World struct {
-	s       *c13Schema
-	methods map[string]*c13Method
-	names   []string // sorted Go names of the methods that have a schema function
+	s         *c13Schema
+	methods   map[string]*c13Method
+	names     []string // sorted Go names of the methods that have a schema function
 	unmatched []string
 }
 
@@ -958,10 +1015,19 @@ type c13Ret struct {
 	panic string
 }
 
-const (
-	c13Deadline     = 6 * time.Second
-	c13AfterWarning = 700 * time.Millisecond
-)
+// A call gets c13Deadline to return after the answer went out. Once the client has reported a warning (it
+// could not make sense of a message) only c13AfterWarning more; when five calls of a run have not returned,
+// the tree is broken and the rest of the run is about naming the methods, so the wait after a warning shrinks.
+const c13Deadline = 6 * time.Second
+
+var c13NoReturns int
+
+func c13AfterWarning() time.Duration {
+	if c13NoReturns >= 5 {
+		return 120 * time.Millisecond
+	}
+	return 500 * time.Millisecond
+}
 
 func c13San(s string) string {
 	s = strings.Map(func(r rune) rune {
@@ -1055,7 +1121,10 @@ func (w *c13World) plan(op []string) (*c13Plan, error) {
 	if inner != nil {
 		resDef, outT = inner.def, inner.typ.Out(0)
 	}
-	rmk := &c13Mk{s: w.s, r: r, scal: true, pop: true, vecN: -1, n: 500 + int64(r.Intn(2))} // (a Bool result takes both values over the seeds)
+	rmk := &c13Mk{s: w.s, r: r, scal: true, pop: true, vecN: -1, n: 500}
+	if op[2] == "z" {
+		rmk.n = 501 // a Bool result is boolTrue for the call with zero arguments, boolFalse for the populated one
+	}
 	switch {
 	case op[3] == "s":
 		if resDef.resTy.kind == "vector" {
@@ -1064,13 +1133,14 @@ func (w *c13World) plan(op []string) (*c13Plan, error) {
 		rmk.pop = false
 	case op[3] == "big":
 		rmk.big = true
-		rmk.pop = resDef.resTy.kind == "vector"
+		rmk.pop = false
 	case strings.HasPrefix(op[3], "n"):
 		n, err := strconv.Atoi(op[3][1:])
 		if err != nil || n < 0 || n > 1<<17 || resDef.resTy.kind != "vector" {
 			return nil, fmt.Errorf("bad size token")
 		}
 		rmk.vecN = n
+		rmk.pop = n < 1000 // a long vector is made of the smallest elements
 	default:
 		return nil, fmt.Errorf("bad size token")
 	}
@@ -1096,10 +1166,12 @@ func c13Exec(op []string) string {
 	if err != nil {
 		return "harness:" + c13San(err.Error())
 	}
+	t0 := time.Now()
 	pl, err := w.plan(op)
 	if err != nil {
 		return "harness:" + c13San(err.Error())
 	}
+	tPlan := time.Since(t0)
 	c13Calls++
 	key := envLCG(256, 99)
 	peer, err := c13NewPeer(key)
@@ -1167,13 +1239,13 @@ func c13Exec(op []string) string {
 		return c13San(ws)
 	}
 	// wait: a frame from the client, or the call's return, within the deadline; once the client has
-	// reported a warning, only c13AfterWarning more
+	// reported a warning, only c13AfterWarning() more
 	start := time.Now()
 	expired := func() bool {
 		wmu.Lock()
 		fw := firstWarn
 		wmu.Unlock()
-		if !fw.IsZero() && time.Since(fw) > c13AfterWarning {
+		if !fw.IsZero() && time.Since(fw) > c13AfterWarning() {
 			return true
 		}
 		return time.Since(start) > c13Deadline
@@ -1196,6 +1268,7 @@ func c13Exec(op []string) string {
 				return c13Frame{}, early(r, stage)
 			case <-time.After(2 * time.Millisecond):
 				if expired() {
+					c13NoReturns++
 					return c13Frame{}, "no-request stage=" + stage + " warning=" + warning()
 				}
 			}
@@ -1250,6 +1323,7 @@ func c13Exec(op []string) string {
 			return "unexpected-further-request-after-the-answer"
 		case <-time.After(2 * time.Millisecond):
 			if expired() {
+				c13NoReturns++
 				return fmt.Sprintf("no-return answer-bytes=%d warning=%s", len(pl.payload), warning())
 			}
 		}
@@ -1264,7 +1338,17 @@ func c13Exec(op []string) string {
 		return "error(" + c13San(r.out[1].Interface().(error).Error()) + ") stage=answer-delivered"
 	}
 	got := r.out[0]
-	wantDump, gotDump := c13Dump(pl.res), c13Dump(got)
+	tRet := time.Since(start)
+	t1 := time.Now()
+	defer func() {
+		if os.Getenv("C13_TIMING") != "" {
+			fmt.Fprintf(os.Stderr, "timing %s plan=%v answer->return=%v compare=%v\n", strings.Join(op[1:5], " "), tPlan, tRet, time.Since(t1))
+		}
+	}()
+	wantDump, gotDump := "", ""
+	if len(pl.payload) <= 8192 {
+		wantDump, gotDump = c13Dump(pl.res), c13Dump(got)
+	}
 	resDef := pl.cm.def
 	if pl.inner != nil {
 		resDef = pl.inner.def
@@ -1272,10 +1356,10 @@ func c13Exec(op []string) string {
 	var back bytes.Buffer
 	ty := resDef.resTy
 	if err := w.s.ser(&ty, got, &back); err != nil {
-		return "result-is-no-" + c13San(resDef.res) + " (" + c13San(err.Error()) + ") value=" + c13Short(gotDump)
+		return "result-is-no-" + c13San(resDef.res) + " (" + c13San(err.Error()) + ") value=" + c13Short(c13Dump(got))
 	}
 	if !bytes.Equal(back.Bytes(), pl.payload) || wantDump != gotDump {
-		return "result-differs sent=" + c13Short(wantDump) + " returned=" + c13Short(gotDump)
+		return "result-differs sent=" + c13Short(c13Dump(pl.res)) + " returned=" + c13Short(c13Dump(got))
 	}
 	return c13OK(op)
 }
@@ -1300,8 +1384,21 @@ func c13Judge(op []string, out string) string {
 		return ""
 	}
 	what := "client method " + op[1]
+	if w, err := c13Load(); err == nil && strings.Contains(op[1], "/") {
+		if _, inner, err := w.lookup(op[1]); err == nil && inner != nil {
+			what = fmt.Sprintf("hand-written wrapper %s around the query %s (declared result %s)", strings.SplitN(op[1], "/", 2)[0], inner.def.name, inner.def.res)
+		}
+	}
 	if len(op) == 6 {
-		what += fmt.Sprintf(" (arguments %s, answer of size %s delivered %s)", op[2], op[3], op[4])
+		size := map[string]string{"s": "the smallest value of the result type", "big": "a value of the result type larger than 32768 bytes"}[op[3]]
+		if size == "" {
+			size = "a Vector of " + strings.TrimPrefix(op[3], "n") + " elements"
+		}
+		how := map[string]string{"plain": "as a plain rpc_result", "cont": "inside a msg_container", "gz": "gzip_packed",
+			"salt":   "after the first copy of the request was rejected with bad_server_salt",
+			"saltgz": "gzip_packed, after the first copy of the request was rejected with bad_server_salt"}[op[4]]
+		args := map[string]string{"z": "zero-valued", "p": "populated"}[op[2]]
+		what += fmt.Sprintf(" (%s arguments; answer: %s, delivered %s)", args, size, how)
 	}
 	switch {
 	case strings.HasPrefix(out, "harness:") || out == "bad-op":
@@ -1331,7 +1428,13 @@ func c13Gen(g *G) {
 	k := func() string { return strconv.Itoa(1 + g.R.Intn(1<<20)) }
 	emit := func(name, args, size, shape string, tags ...string) bool {
 		op := []string{"c13.e2e", name, args, size, shape, k()}
-		if _, err := w.plan(op); err != nil {
+		// whether a type has a value larger than one inflate window is found out by building one; every other
+		// operation is emitted as it is (if the harness cannot build it, Exec says so and Judge reports it)
+		var err error
+		if size == "big" {
+			_, err = w.plan(op)
+		}
+		if err != nil {
 			key := "unbuildable:" + args + "/" + size
 			n, _ := g.Extra[key].(int)
 			g.Extra[key] = n + 1
@@ -1385,13 +1488,20 @@ func c13Gen(g *G) {
 	// (2) every method with a Vector result: 0, 3, 5000 elements x every way of delivery; a vector larger
 	// than one inflate window, packed
 	for _, n := range vec {
-		for _, size := range []string{"n0", "n3", "n5000"} {
+		for _, size := range []string{"n0", "n3"} {
 			for _, sh := range []string{"plain", "cont", "gz", "salt", "saltgz"} {
 				if size == "n3" && sh == "plain" {
 					continue // in (1)
 				}
 				emit(n, []string{"z", "p"}[g.R.Intn(2)], size, sh, "vector-matrix")
 			}
+		}
+		long := []string{"plain", "gz", []string{"cont", "salt", "saltgz"}[g.R.Intn(3)]}
+		if g.Thorough() {
+			long = []string{"plain", "cont", "gz", "salt", "saltgz"}
+		}
+		for _, sh := range long {
+			emit(n, []string{"z", "p"}[g.R.Intn(2)], "n5000", sh, "vector-matrix")
 		}
 		for _, sh := range []string{"gz", "saltgz", "plain"} {
 			emit(n, "z", "big", sh, "big")
